@@ -36,11 +36,16 @@ def monitor_parsed(case, p):
     # slew_minimum_duration / slew_maximum_frequency_offset the code divides by it and the NaN is the
     # configuration's, not a violation
     positive_limits = (M > 0 and slew_max > 0 and dur > 0 and g.unbits(p.floats[0]) >= 0)
+    # C02_no_nan's hypothesis on consensus updates: |frequency estimate| + slew_max must not overflow.  Where it
+    # fails the NaN is the refuted variant C02_no_nan_refuted (still reported, with its class).
+    delta_overflow = False
     for rec in p.ops:
         op = rec["op"]
         if op[0] == "M":
             if rec["tap"]:
                 all_finite = all_finite and all(finite_bits(b) for b in rec["tap"][:4])
+                if all_finite and math.isinf(abs(g.unbits(rec["tap"][1])) + slew_max):
+                    delta_overflow = True
             else:
                 pass
         elif op[0] == "SO":
@@ -54,7 +59,10 @@ def monitor_parsed(case, p):
                 return ("set_frequency reached although maximum_frequency_steer=%r should fail the clamp assertion" % M, {"freq_bits": a})
             if isnan_bits(a):
                 if all_finite and sane_f0 and M < 1.0 and positive_limits:
-                    return ("set_frequency(NaN) although every input of the history was finite (M=%r)" % M, {"freq_bits": a})
+                    payload = {"freq_bits": a}
+                    if delta_overflow:
+                        payload["class"] = "C02-nan-freq-delta-overflow"
+                    return ("set_frequency(NaN) although every input of the history was finite (M=%r)" % M, payload)
                 continue
             f = g.unbits(a)
             if not (-M <= f <= M):
@@ -123,6 +131,7 @@ def main():
         cases.append(g.gen_case(rng, "history"))
     for _ in range(150 * n):
         cases.append(g.gen_case(rng, "steps"))
+    cases = vplib.replay_cases() or cases
     for cs in cases:
         cs["thr"] = tuple(cs["thr"])
         cs["ops"] = [tuple(o) for o in cs["ops"]]
@@ -211,8 +220,9 @@ def main():
         "f64::clamp/min/signum on Coq primitive floats); tied bit for bit by the correspondence above",
         "Coq's primitive floats are IEEE-754 binary64 (FloatAxioms specs, used through Flocq's PrimFloat bridge); rustc compiles "
         "f64 + - * / and comparisons to the same operations",
-        "PARTIAL: NaN-freeness of the clamp argument (1+f)(1+c)-1 for in-range f, M<1, non-NaN c, and |desired_freq| <= slew_max "
-        "(exactness of *(+-1.0), sign of |change|/duration) are not proved; both are checked by the monitor on every run",
+        "C02_no_nan needs, for a consensus update, that |frequency estimate| + slew_max does not overflow (float addition): without "
+        "it a finite history under a finite positive configuration applies NaN (C02_no_nan_refuted, reproduced on the implementation: "
+        "reports/K1_C02_nan_witness.json); the monitor flags such a run (class C02-nan-freq-delta-overflow)",
         "ntpd/src/daemon/clock.rs multiplies the frequency by 1e6 (one rounding, monotone) before the adjtimex call; the kernel's own "
         "limit is outside the model",
     ]
@@ -226,17 +236,29 @@ MANIFEST = {
             "subnormals, by induction over the list): every set_frequency argument is NaN or satisfies -M <= f <= M in the hardware order "
             "(C02_set_frequency, from C02_clamp_range: f64::clamp maps NaN to NaN and everything else into [lo,hi]; its assertion fires "
             "exactly when not lo <= hi, C02_clamp_panic_iff); freq_offset is the kernel value until the first set_frequency and a clamp "
-            "output afterwards (C02_freq_offset_state); the slew frequency min(slew_max, |change|/duration) is <= slew_max for every "
-            "request and duration when slew_max is not NaN (C02_slew_frequency, C02_min_bound); a slew is only started for a non-NaN request "
-            "and sets desired_freq = -freq*signum(request) (C02_slew_partial); time_update resets it to 0 (C02_slew_ends). The model is "
-            "compared bit for bit with the real controller on ~2000 histories per quick run (f64 sweep incl. specials, slews at slew_max +- 1 ulp).",
-    "note": "PARTIAL (named in Props/C02.v): (1) that the clamp argument (1+f)(1+c)-1 is not NaN for in-range f, M<1 and non-NaN c, i.e. "
-            "that no NaN is ever applied for finite inputs, is not proved (NaN propagation lemmas exist in scratch only); (2) |desired_freq| <= "
-            "slew_max needs exactness of *(+-1.0) and freq >= 0 for positive limits, not proved. Both are evaluated by the monitor on every "
-            "run. Trusted: Coq kernel+vm_compute; FloatAxioms specs of the primitive floats and the stdlib real-number axioms Flocq uses "
-            "(Print Assumptions: classic, sig_forall_dec, sig_not_dec, functional_extensionality_dep, Prim2SF/SF2Prim and *_spec axioms); "
-            "hand-written model coq/Model/Controller.v; the estimate of update_clock is an oracle input; f64::min on zeros of different sign "
-            "is unspecified in Rust and avoided by the generator; ntpd/src/daemon/clock.rs multiplies by 1e6 before adjtimex (one monotone "
-            "rounding, not modelled); the kernel's own frequency limit.",
+            "output afterwards (C02_freq_offset_state). NO NaN (C02_no_nan, with C02_clamp_arg_not_nan): if 0 < M < 1, 0 <= slew_max < inf, "
+            "0 < slew_minimum_duration, steer_frequency_leftover finite, the kernel frequency finite and > -1, |desired_freq| <= slew_max "
+            "initially (0 at startup), every direct frequency request not NaN (+-inf allowed), every freq_delta of a direct offset request "
+            "finite, and for every consensus update the frequency variance finite and |frequency estimate| + slew_max < inf (float "
+            "addition), then every set_frequency argument of the history is a number with -M <= f <= M; all other configuration fields and "
+            "the offset part of the estimates are unconstrained. That last hypothesis is necessary: C02_no_nan_refuted is a vm_compute "
+            "witness (slew_max = 1e308, steer_frequency_leftover = 1e200, a 1.5e308 s slew request, then an estimate of 1e308 with "
+            "variance 1e300: freq_delta and sqrt(p11)*leftover both overflow, inf - inf) where all inputs and configuration values are "
+            "finite and positive, M = 0.5, and NaN is applied; the implementation does the same on these inputs. SLEWS: the slew frequency "
+            "min(slew_max, |change|/duration) is <= slew_max when slew_max is not NaN (C02_slew_frequency, C02_min_bound) and has magnitude "
+            "<= slew_max when 0 <= slew_max and 0 < duration (C02_slew_frequency_abs); a slew is only started for a non-NaN request and "
+            "sets desired_freq = -freq*signum(request) (C02_slew_desired), whose magnitude is exactly that of freq (C02_slew_exact: "
+            "multiplication by +-1.0 and negation are exact on binary64); hence every slew started leaves |desired_freq| <= slew_max "
+            "(C02_slew_started_bound) and so does every state of every history, for arbitrary inputs incl. NaN/inf, under 0 <= slew_max, "
+            "0 < slew_minimum_duration only (C02_slew_bound); time_update resets it to 0 (C02_slew_ends). The model is compared bit for bit "
+            "with the real controller on ~2000 histories per quick run (f64 sweep incl. specials, slews at slew_max +- 1 ulp).",
+    "note": "Nothing PARTIAL left; one REFUTED variant (C02_no_nan_refuted, see text): a finding only for configurations with "
+            "slew_maximum_frequency_offset near f64::MAX and steer_frequency_leftover >= ~1e154, replay input in "
+            "reports/K1_C02_nan_witness.json. The monitor still evaluates both statements on every run. Trusted: Coq kernel+vm_compute; "
+            "FloatAxioms specs of the primitive floats and the stdlib real-number axioms Flocq uses (Print Assumptions: classic, "
+            "sig_forall_dec, sig_not_dec, functional_extensionality_dep, Prim2SF/SF2Prim and *_spec axioms); hand-written model "
+            "coq/Model/Controller.v; the estimate of update_clock is an oracle input (C02_no_nan constrains only its frequency and "
+            "frequency variance); f64::min on zeros of different sign is unspecified in Rust and avoided by the generator; "
+            "ntpd/src/daemon/clock.rs multiplies by 1e6 before adjtimex (one monotone rounding, not modelled); the kernel's own frequency limit.",
     "design_ref": "DESIGN.md 3 C02",
 }
